@@ -213,8 +213,8 @@ def ob_wildcard(pid, wlen, nlen):
                     "every wildcard of exactly %d printable characters x every entry with a %d-character name and any directory character (names/directories not containing . : # *)" % (wlen, nlen),
                     ["dfs/afsp.cc:AFSPMatcher::AFSPMatcher", "AFSPMatcher::matches", "convert_wildcard_into_extended_regex", "extend_wildcard", "qualify", "transform_string_with_regex",
                      "dfs/regularexpression.h:RegularExpression", "dfs/driveselector.cc:VolumeSelector::parse"],
-                    unwind=10, unwindset=[("X_strlen", 64), ("vf_string", 50), ("X_regcomp.0", 26), ("X_regcomp.1", 6), ("vrx_streq", 66), ("X_regexec", 26), ("vrx_", 26), ("X_regerror", 14),
-                                          ("h_wildcard", 8), ("glob", 8), ("X_strtol", 26), ("range_initialize", 98), ("convert_wildcard", 12), ("count_if", 50), ("realloc_insert", 8)],
+                    unwind=10, unwindset=[("convert_wildcard", 12), ("transform_string_with_regex", 12), ("AFSPMatcher", 12), ("X_strlen", 64), ("vf_string", 50), ("X_regcomp.0", 26), ("X_regcomp.1", 6), ("vrx_streq", 66), ("X_regexec", 26), ("vrx_", 26), ("X_regerror", 14),
+                                          ("h_wildcard", 8), ("glob", 8), ("X_strtol", 26), ("range_initialize", 98), ("count_if", 50), ("realloc_insert", 8)],
                     defines=("NDEBUG", "VF_STRMODEL", "VF_STRCAP=48", "WLEN=%d" % wlen, "NLEN=%d" % nlen), weight_gb=6, timeout=1500,
                     noop_re=IO_CUT + [r"^_ZNSt6vectorIcSaIcEE17_M_realloc_insertIJ(RKc|c)EEE", r"^_ZNSt6vectorIcSaIcEE19_M_range_initializeIPKcEE"], clang_extra=["-fno-inline", "-DVF_INSTANTIATE_STRING"],
                     stubs=[STRMODEL_NOTE, "glibc regcomp/regexec/regerror/regfree replaced by the restricted POSIX ERE model in stubs/vf_stubs.c (fixed canonicalisation patterns + generated "
@@ -256,7 +256,7 @@ def c07(tier):
     # ob_hxc_track_list (symex 830 s / 1.9M steps, then no verdict in 900 s) and ob_opus_catalogue (std::sort over symbolic volume
     # slots: symex alone > 900 s) are NOT registered: no verdict within budget (DESIGN.md 10).
     obs = [ob_hxc_header("C07"), ob_fragment_valid("C07", 2 if tier == "quick" else 3), ob_fileview("C07", 0), ob_fileview("C07", 10), ob_fileview_far("C07"), ob_blockwise("C07"), ob_watford("C07"),
-           ob_hfe_header("C07"), ob_copy_hfe("C07", 5), ob_zlib_error_code("C07")]
+           ob_hfe_header("C07"), ob_copy_hfe("C07", 5), ob_zlib_error_code("C07"), ob_hfe_header_dump("C07")] + [ob_catalog_unreadable("C07", r) for r in ((1,) if tier == "quick" else (0, 1, 2))]
     return obs, dict(assumptions=CXX_ASSUME + ["C07 is claimed per parsing kernel with the file modelled as an arbitrary buffer; whole-program runs, getopt and the "
                                                 "command bodies are outside the claim; 'terminates promptly' is replaced by passing unwinding assertions"])
 
@@ -307,12 +307,12 @@ def c14(tier):
     return ([ob_cmd_free("C14", e) for e in es] + [ob_cmd_space("C14", e) for e in es]
             + [ob_map_sectors("C14", e) for e in ((2,) if tier == "quick" else (1, 2, 3))]), dict(assumptions=CXX_ASSUME)
 
-def ob_extract_paths(pid, tag="out", dest="out"):
-    return X.cxx_ob(pid, "extract_paths." + tag, W_EXTRACT, "h_extract_paths", "CommandExtractFiles::invoke on an in-memory drive with one catalogued file whose 8 name/directory bytes are arbitrary: "
+def ob_extract_paths(pid, tag="out", dest="out", io=False):
+    return X.cxx_ob(pid, ("extract_io." if io else "extract_paths.") + tag, W_EXTRACT, "h_extract_paths", "CommandExtractFiles::invoke on an in-memory drive with one catalogued file whose 8 name/directory bytes are arbitrary: "
                     "every host file opened lies directly inside the destination directory", "7 name bytes + directory byte symbolic, destination %r (constant per query)" % dest,
                     ["dfs/cmd_extract_files.cc:CommandExtractFiles::invoke", "create_inf_file", "CatalogEntry::name", "stringutil::rtrim"],
                     unwind=10, unwindset=CMD_UNWIND + [("h_extract_paths", 20)], weight_gb=10, timeout=1500, noop_re=EXC_CTORS + IO_CUT,
-                    defines=("NDEBUG", 'DEST="%s"' % dest, "VF_STRMODEL", "VF_STRCAP=40"),
+                    defines=("NDEBUG", 'DEST="%s"' % dest, "VF_STRMODEL", "VF_STRCAP=40") + (("EXTRACT_IO",) if io else ()),
                     replace=[MOUNT_STUB, "_ZNK3DFS12CatalogEntry25visit_file_body_piecewiseERNS_10DataAccessESt8functionIFbPKhS5_EE=stub_visit"],
                     stubs=["std::ofstream modelled by harness/cxx/iomodel.h (records the path of every file opened)", STRMODEL_NOTE])
 @prop("C12")
@@ -330,7 +330,7 @@ def c18(tier):
                     "nothing on standard output, additions only on standard error", "256+8 symbolic bytes",
                     ["dfs/identify.cc:smells_like_watford", "eliminated_format"], unwind=34, unwindset=ID_UNWIND + [("h_verbose_watford", 258)]),
            # verbose_copy_hfe (copy_hfe twice, --verbose off/on): out of memory at the SAT stage even for 2 input bytes -> not registered
-           ob_hexdump("C18", 9)]
+           ob_hexdump("C18", 9), ob_hfe_header_dump("C18")]
     return obs, dict(assumptions=CXX_ASSUME)
 
 W_STOR = "w_storage.cc"
@@ -369,7 +369,7 @@ TAKES_ALL = [0, 10, 16, 18, 350, 400, 560, 630, 640, 720, 800, 1280, 1440]
 
 @prop("C04")
 def c04(tier):
-    obs = [ob_fileview("C04", t) for t in (TAKES_QUICK if tier == "quick" else TAKES_ALL)] + [ob_fileview_far("C04"), ob_blockwise("C04")]
+    obs = [ob_fileview("C04", t) for t in (TAKES_QUICK if tier == "quick" else TAKES_ALL)] + [ob_fileview_far("C04"), ob_blockwise("C04")] + [ob_get_arg("C04", n) for n in ((2,) if tier == "quick" else (1, 2, 3))]
     # ob_mmb_views is NOT registered: the MmbFile constructor's 511-slot loop with its exception clean-up paths (virtual destructors
     # of the view/cache objects) makes symbolic execution alone exceed 900 s in every variant tried (DESIGN.md 10).
     return obs, dict(assumptions=CXX_ASSUME)
@@ -392,6 +392,7 @@ def c11(tier):
     obs = [B.line_ob("C11", d, n, "IOFAIL", L) for d, n in ds]
     obs += [B.main_ob("C11", "IOFAIL", ndebug=True)]
     obs += [ob_sector_walk("C11", 1024)]      # extract-files: a failed write (visitor returns false) stops the walk and is reported to the caller
+    obs += [ob_extract_paths("C11", "io", "out", io=True)]   # extract-files: success only if every open/write/close of every output file succeeded
     return obs, dict(assumptions=BASIC_ASSUME + ["stdout failure model: each stdout call may report failure (and set the error indicator) from a "
         "nondeterministically chosen call on, or be accepted into a buffer that fails at the next fflush -- ISO C guarantees only, no glibc specifics"])
 
@@ -416,3 +417,29 @@ def cli_replay(pid, ob, values, outdir):
     if kind == "basic-file":
         return B.cli_replay_file(ob, values, outdir)
     return None
+
+
+# ---- obligations added late in the session (regression coverage of repaired defects)
+def ob_hfe_header_dump(pid):
+    return X.cxx_ob(pid, "hfe_header_dump", W_HFE, "h_hfe_header_dump", "operator<<(ostream&, picfileformatheader) (the --verbose header dump) on arbitrary header bytes: "
+                    "the non-terminated 8-byte signature is written as 8 bytes, nothing inside the header is streamed as a C string, output goes to the given stream only",
+                    "26 header bytes symbolic", ["dfs/img_hfe.cc:operator<<(picfileformatheader)", "decode_header"], unwind=30,
+                    unwindset=[("h_hfe_header_dump", 2000), ("X_strlen", 64)], weight_gb=4)
+# ob_hfe_ctor_degenerate is NOT registered: no verdict in 1200 s (the whole HfeFile constructor with its clean-up paths); regression seed fix11-revert stays missed.
+def ob_hfe_ctor_degenerate(pid):
+    return X.cxx_ob(pid, "hfe_ctor_degenerate", W_HFE, "h_hfe_ctor_degenerate", "HfeFile constructor on a header that announces no tracks or no sides: rejected with a dfs exception "
+                    "(never an image without surfaces, never undefined behaviour)", "header bytes 8..25 symbolic, signature HXCPICFE, tracks == 0 or sides == 0",
+                    ["dfs/img_hfe.cc:HfeFile::HfeFile", "decode_header", "read_track_offset_lut", "read_all_sectors (zero tracks)"], unwind=12,
+                    unwindset=[("X_strlen", 64), ("vf_string", 66), ("X_mem", 16), ("HeaderOnlyFile4read", 28), ("h_hfe_ctor_degenerate", 30)], defines=("NDEBUG", "VF_STRMODEL", "VF_STRCAP=64"), weight_gb=8, timeout=1200,
+                    noop_re=IO_CUT + [r"InvalidHfeFileC[12]E", r"UnsupportedHfeFileC[12]E"] + EXC_CTORS, stubs=[STRMODEL_NOTE],
+                    havoc=("_ZN5Track15decode_fm_trackERKNS_9BitStreamEb", "_ZN5Track16decode_mfm_trackERKNS_9BitStreamEb", "_ZN3DFS17AbstractImageFileD2Ev"))
+def ob_catalog_unreadable(pid, readable=1):
+    return X.cxx_ob(pid, "catalog_unreadable.R%d" % readable, W_CMDS, "h_catalog_unreadable", "Volume/Catalog constructors on a drive with 0, 1 or 2 readable sectors: an unreadable catalogue is reported by "
+                    "throwing a BadFileSystem OBJECT (a thrown pointer would escape every handler)", "%d readable sector(s) (constant per query)" % readable,
+                    ["dfs/dfs_volume.cc:Volume::Volume", "dfs/dfs_catalog.cc:Catalog::Catalog", "CatalogFragment::CatalogFragment"], unwind=8,
+                    unwindset=CMD_UNWIND + [("h_catalog_unreadable", 12)], defines=("NDEBUG", "CMD_ENTRIES=0", "CAT_READABLE=%d" % readable), weight_gb=6, timeout=900, noop_re=EXC_CTORS + IO_CUT)
+def ob_get_arg(pid, alen):
+    return X.cxx_ob(pid, "get_arg.A%d" % alen, "w_dump.cc", "h_get_arg", "dump-sector's get_arg: a track/sector argument is accepted iff it is a decimal number in 0..limit and is taken at its value",
+                    "every argument string of exactly %d characters, every 16-bit limit" % alen, ["dfs/cmd_dump.cc:get_arg"], unwind=8,
+                    unwindset=[("X_strlen", 64), ("vf_string", 26), ("X_strtol", 26), ("h_get_arg", 6)], defines=("NDEBUG", "VF_STRMODEL", "VF_STRCAP=24", "ALEN=%d" % alen), weight_gb=4,
+                    noop_re=IO_CUT, stubs=[STRMODEL_NOTE])
